@@ -172,7 +172,7 @@ func (s *lifeSim) plausible(o *Step) bool {
 func (s *lifeSim) observe(st *Step) {
 	st.Op = "Life"
 	var prev *Step
-	deadline := time.Now().Add(3 * time.Second)
+	deadline := time.Now().Add(8 * time.Second)
 	for {
 		cur := &Step{}
 		observeLife(s.n, cur)
